@@ -44,6 +44,8 @@ def grid(quick):
                                    "modulation_index": 2}, pr, (min(ip, mp), mp)))
         for ps in ([3] if quick else [1, 3, 6]):
             g.append(("real_fa", {"pop_size": ps, "alpha": 0.25, "beta": 1.0, "gamma": 1.0, "delta": 0.97}, pr, (ps, ps)))
+        # the same template for a non-default evaluator identifier (a poisoned evaluator sits under the default one)
+        g.append(("real_fa@A", {"pop_size": 3, "alpha": 0.25, "beta": 1.0, "gamma": 1.0, "delta": 0.97}, pr, (3, 3)))
         for ps in ([3] if quick else [1, 3, 8]):
             g.append(("real_bh", {"num_particles": ps}, pr, (ps, ps)))
         # CRO: parameter points chosen so that all four elementary reactions occur (synthesis needs low kinetic
